@@ -13,6 +13,11 @@ PARTIAL = ("Theorems are about the hand-written semiring-polymorphic model coq/C
            "relative tolerance 2^-36; binary64 rounding itself is not proved). Constrained / hierarchical HMM wrappers, "
            "matrixDistribution.Hmm and the vectorClassifier front-ends have no theorem and are not exercised; "
            "Baum-Welch belongs to C16.")
+# genuine quirks of the unchanged library, matched narrowly (id, site, fixed witness evaluated by the harness)
+KNOWN_IDS = {
+    "F-C15-TF-SELFLOOP": "statistics/generic/hmm_utility.go:126 (HmmTransitionMatrix.Normalize via Hmm.normalizeTf): a state without "
+                         "transitions into the final states gets Tf[i][i] = 1, so sequences can end outside the final states",
+}
 HOOK_SRC = os.path.join(vlib.ROOT, "harness", "c15", "hook", "verif_c15.go.txt")
 
 
@@ -63,6 +68,9 @@ def hunt(ctx, binary, bad):
         h = json.load(open(hp))
         ctx.cov.setdefault("extra", {})["hunt"] = {"tried": h.get("tried"), "grid_models": h.get("grid_models"),
                                                    "grid": "2-state models, probabilities in {0,1/4,1/2,3/4,1}, categorical emissions over 2 symbols, start/final in {none,{0},{1}}, all observation sequences of length 1..4; Go-side brute-force enumeration"}
+        for k in h.get("known") or []:
+            if k.get("still") and k.get("id") in KNOWN_IDS:
+                ctx.known_finding(k["id"], KNOWN_IDS[k["id"]] + " -- " + k.get("what", ""))
         if h.get("found"):
             return h
         return None
